@@ -620,13 +620,15 @@ SCOPE = {
     "C06": {"copy": [r"^fn copy_async \|"], "chunked": [r"^fn copy_chunked_async \|"]},
     # one response per request on the wire, and the connection closed after a failed one: that is write_response's contract
     "C04": {"conn": [r"^impl HttpConn / fn write_response \|"]},
+    # a failure mid-body leaves a prefix of the one serialisation: that is what the two copy loops promise for reader / writer errors
+    "C08": {"chunked": [r"^fn copy_chunked_async \|"], "copy": [r"^fn copy_async \|"]},
     "C09": {"conn": [r"^fn (read_http_|copy_async)"], "copy": [r"."]},
 }
 
 
 # scenarios of a bounded stand-in shared by several properties: which failing inputs belong to which property
 WITNESS_SCOPE = {
-    "cconn": {"C09": r"^(upload|pipebody) ", "C08": r"^bodyfile ", "C05": r"^(pipeline|pipebody) "},
+    "cconn": {"C09": r"^(upload|pipebody|recvbody) ", "C08": r"^bodyfile ", "C05": r"^(pipeline|pipebody) "},
     # the API-level model-based stand-in: every disagreement belongs to C05; the ones in a body read, in the body read state after a request was read, or in reading the request that follows a body (the body handed out,
     # what is left for the next request) also to C03
     "c05": {"C03": r"\((BV|BF\(\d+\))\)|ops=\S*B[VF]\S* expected=call \d+ \(RR\)|expected=after call \d+ \(RR\) states"},
